@@ -49,6 +49,6 @@ m = dict(version=1, setup_cmd="bin/setup",
   checks=checks,
   not_applicable=[dict(property_id=p["id"], reason="check under construction in this session: model and correspondence exist or are being built; not yet claimed")
                   for p in props if p["id"] not in CLAIMED],
-  notes="See DESIGN.md (section 10: as built, findings, false alarms, seeded changes, trusted base). All 20 properties are claimed; partial claims say so in level_claimed.text.")
+  notes="See DESIGN.md (section 10: as built, findings 10.3, false alarms 10.4, seeded changes 10.5, trusted base 10.6, per-property status 10.7). All 20 properties are claimed; partial claims say so in level_claimed.text.")
 json.dump(m, open(os.path.join(VERIF, "MANIFEST.json"), "w"), indent=1)
 print("claimed:", sorted(CLAIMED))
